@@ -245,25 +245,41 @@ func runC08(p *Program, r *Report) {
 				r.Undecide("C08.RD3", "binary."+name, "-", "helper not found")
 				continue
 			}
+			// every call, transitively through helpers of the same package, is ReadByte
+			// on the reader (or builtin/conversion): the result depends on the byte
+			// sequence only, never on how the source segments it
 			ok, why := true, ""
 			n := 0
-			for _, b := range f.Blocks {
-				for _, in := range b.Instrs {
-					c, isCall := in.(*ssa.Call)
-					if !isCall {
-						continue
-					}
-					n++
-					cc := c.Common()
-					switch {
-					case cc.IsInvoke() && cc.Method.Name() == "ReadByte":
-					case !cc.IsInvoke() && staticCallee(c) != nil && staticCallee(c).Pkg == bin && strings.HasPrefix(staticCallee(c).Name(), "ReadU"):
-					default:
-						ok, why = false, fmt.Sprintf("%s at %s", c.String(), p.InstrPos(c))
+			seen := map[*ssa.Function]bool{}
+			var scan func(g *ssa.Function)
+			scan = func(g *ssa.Function) {
+				if seen[g] {
+					return
+				}
+				seen[g] = true
+				for _, b := range g.Blocks {
+					for _, in := range b.Instrs {
+						c, isCall := in.(*ssa.Call)
+						if !isCall {
+							continue
+						}
+						cc := c.Common()
+						if _, isB := cc.Value.(*ssa.Builtin); isB {
+							continue
+						}
+						n++
+						switch {
+						case cc.IsInvoke() && cc.Method.Name() == "ReadByte":
+						case !cc.IsInvoke() && staticCallee(c) != nil && staticCallee(c).Pkg == bin && len(staticCallee(c).Blocks) > 0:
+							scan(staticCallee(c))
+						default:
+							ok, why = false, fmt.Sprintf("%s at %s", c.String(), p.InstrPos(c))
+						}
 					}
 				}
 			}
-			r.Check(ok && n > 0, "C08.RD3", "binary."+name, p.FnPos(f), fmt.Sprintf("built from %d ReadByte/ReadU* calls only", n), "contains a call other than ReadByte: "+why)
+			scan(f)
+			r.Check(ok && n > 0, "C08.RD3", "binary."+name, p.FnPos(f), fmt.Sprintf("built from %d calls, all ReadByte or helpers of meta/binary that themselves only call ReadByte", n), "contains a call other than ReadByte: "+why)
 		}
 	}
 
